@@ -463,6 +463,8 @@ func thorough(pr *rules.Property, base *core.Report, repo string, extra map[stri
 				r.OK = true // skipped: locator does not apply to this tree
 			case c.Positive && c.Rule == "known-miss":
 				r.OK = true // a seeded change the rules are known not to report (seeded/KNOWN_MISSES.json)
+			case !c.Positive && c.Rule == "known-false-alarm":
+				r.OK = true // a refactoring the rules are known to misjudge (neutral/KNOWN_FALSE_ALARMS.json)
 			case c.Positive:
 				r.OK = false
 				for _, f := range newFired {
